@@ -151,3 +151,108 @@ PROPS['C19'] = dict(
          'with duplicate add_sensor; output-part sensors are exercised by the floor family; non-trivial = a callback ran',
     assumptions=['exact time arithmetic', 'integer data capacity'],
 )
+
+import corr as _c
+
+FLOOR_RULE = ('families floor / floorc: random topologies (sources, handlers, processors, buffers, gates, batchers, '
+              'shared groups with several paths, sinks; fan-in/out; zero and positive cycle times; capacities; batches; '
+              'resource pools) with scripted failures, work orders, shutdown/restore, input blocking, capacity and budget '
+              'changes, cycle-time changes and callbacks; ')
+
+
+def floor_stats(scens, streams):
+    import collections
+    kinds = collections.Counter(l[2] for s in scens for l in s if l[:2] == ['asset', 'dev'])
+    ops = collections.Counter(l[2] for s in scens for l in s if l[0] == 'script')
+    recs = collections.Counter(l.split()[1] for st in streams for l in st if l.startswith('rec '))
+    acts = collections.Counter(int(l.split()[4]) % 16 for st in streams for l in st if l.startswith('ev '))
+    flags = {
+        'frames_with_waiting_for_downstream': sum(1 for st in streams for l in st if l.startswith('d ') and ' wds=1 ' in l),
+        'frames_with_waiting_for_resources': sum(1 for st in streams for l in st if l.startswith('d ') and ' wres=1 ' in l),
+        'frames_blocked_input': sum(1 for st in streams for l in st if l.startswith('d ') and ' blk=1 ' in l),
+        'frames_machine_down': sum(1 for st in streams for l in st if l.startswith('d ') and ' down=1 ' in l),
+        'aborted_runs': sum(1 for st in streams for l in st if l.startswith('abort')),
+    }
+    return {'device_kinds': dict(kinds), 'script_ops': dict(ops), 'records': dict(recs),
+            'executed_actions_by_kind_code': {str(k): v for k, v in acts.items()}, 'state_flags': flags}
+
+
+def floor_prop(pid, modules, prop_files, tagsd, nontriv_prefix, extra_rule, runner='FullRunner',
+               families=None, **kw):
+    d = dict(
+        modules=modules, prop_files=prop_files,
+        families=families or [('floor', 120, 2500), ('floorc', 60, 1500)],
+        tags=tagsd, monitors=M.MONITORS[pid], runner=runner,
+        nontrivial=has(nontriv_prefix), stats=floor_stats, divergence_is_witness=False,
+        rule=FLOOR_RULE + extra_rule,
+        assumptions=['well-posed topologies (no pass-through-only cycles, group devices connected among themselves)',
+                     'times on the dyadic grid k/16, integer values/amounts'],
+    )
+    d.update(kw)
+    return d
+
+
+PROPS['C02'] = floor_prop(
+    'C02', ['SimProc.Props.C02'], ['SimProc/Props/C02.lean'],
+    {'d': _c.fields('part', 'out', 'buf', 'inprog', 'prod', 'max', 'recv', 'lvl'), 'p': _c.fields('kids'),
+     'rec': _c.only(('device_failure', 'supplied_new_part', 'received_part'))},
+    ('rec device_failure', 'rec received_part'), 'non-trivial = at least one part was received; distinct by scenario text')
+PROPS['C03'] = floor_prop(
+    'C03', ['SimProc.Props.C03'], ['SimProc/Props/C03.lean'],
+    {'ev': None, 'now': None, 'ran': None, 'd': _c.fields('part', 'out', 'buf', 'wds', 'blk', 'down', 'wres', 'lvl')},
+    ('d ',), 'implementation traces are produced with the deep-copy probe at every clock advance; non-trivial = a scenario '
+             'in which some device waited for downstream space', runner='ProbeRunner',
+    families=[('floorc', 100, 2000), ('floor', 60, 1500)],
+    nontrivial=lambda st, s: any(l.startswith('d ') and ' wds=1 ' in l for l in st))
+PROPS['C04'] = floor_prop(
+    'C04', ['SimProc.Props.C04'], ['SimProc/Props/C04.lean'],
+    {'rec': _c.only(('received_part',)), 'ran': None},
+    ('rec received_part',), 'family serial: source -> handlers/processors/buffers -> sink with constant parameters; '
+                            'non-trivial = at least one part reached a station',
+    families=[('serial', 300, 6000)])
+PROPS['C05'] = floor_prop(
+    'C05', ['SimProc.Props.C05'], ['SimProc/Props/C05.lean'],
+    {'d': _c.only(('',), None), 'rec': _c.only(('level',))},
+    ('rec level',), 'non-trivial = a buffer level changed')
+PROPS['C05']['tags']['d'] = lambda l: _c.fields('buf', 'lvl')(l) if ' buffer ' in l else None
+PROPS['C08'] = floor_prop(
+    'C08', ['SimProc.Props.C08'], ['SimProc/Props/C08.lean'],
+    {'p': _c.fields('hist', 'stack', 'kids'), 'd': _c.fields('coll', 'blk'), 'rec': _c.only(('received_part',))},
+    ('rec received_part',), 'non-trivial = a part was handed over')
+PROPS['C11'] = floor_prop(
+    'C11', ['SimProc.Props.C11'], ['SimProc/Props/C11.lean'],
+    {'d': _c.fields('part', 'resv', 'wres', 'down'), 'r': None, 'rec': _c.only(('resource_update',))},
+    ('rec resource_update',), 'non-trivial = a pool changed',
+    families=[('floorc', 120, 2500), ('floor', 60, 1500)])
+PROPS['C13'] = floor_prop(
+    'C13', ['SimProc.Props.C13'], ['SimProc/Props/C13.lean'],
+    {'d': _c.fields('part', 'out', 'down', 'up', 'use'), 'res': _c.only(('shut', 'restored', 'hook')),
+     'rec': _c.only(('device_failure',)), 'now': None},
+    ('rec device_failure', 'res shut'), 'non-trivial = a machine failed or was shut down')
+PROPS['C15'] = floor_prop(
+    'C15', ['SimProc.Props.C15'], ['SimProc/Props/C15.lean'],
+    {'rec': None, 'd': _c.fields('lvl', 'prod', 'recv'), 'r': None},
+    ('rec ',), 'non-trivial = records were written',
+    families=[('floor', 100, 2000), ('maint', 60, 1000), ('sched', 60, 1000), ('rm', 60, 1000)])
+PROPS['C16'] = floor_prop(
+    'C16', ['SimProc.Props.C16'], ['SimProc/Props/C16.lean'],
+    {'d': _c.fields('val', 'vh', 'cost', 'rval'), 'm': _c.fields('val', 'vh')},
+    ('d ',), 'the runner also checks value bookkeeping on the live objects after every event; non-trivial = a value changed',
+    runner='ValueRunner', families=[('floor', 120, 2500), ('maint', 60, 1000)],
+    nontrivial=lambda st, s: any(l.startswith(('d ', 'm ')) and ' vh=0 ' not in l + ' ' for l in st))
+PROPS['C17'] = floor_prop(
+    'C17', ['SimProc.Props.C17'], ['SimProc/Props/C17.lean'],
+    {'p': _c.fields('kids'), 'rec': _c.only(('received_part',))},
+    ('rec received_part',), 'non-trivial = a part was handed over')
+PROPS['C17']['tags']['d'] = lambda l: _c.fields('part', 'out', 'inprog')(l) if ' batcher ' in l else None
+PROPS['C20'] = dict(
+    modules=['SimProc.Props.C20', 'SimProc.Props.Facts'], prop_files=['SimProc/Props/C20.lean'],
+    families=[('sys', 200, 4000)],
+    tags=tags('ev', 'now', 'res', 'ran', 'runbegin', 'rec', 'd', 'p', 's', 'n', 'm'),
+    monitors=[], nontrivial=has(('res ok',)), stats=op_stats, divergence_is_witness=True,
+    divergence_text='an asset created while the simulation runs must behave like the model\'s constructor + immediate '
+                    'initialisation (= the same asset created before the start, shifted)',
+    rule='family sys: assets of every kind constructed before the first run, between runs and from inside events; '
+         'non-trivial = a creation happened while the simulation was initialised',
+    assumptions=['new devices are wired to existing devices that are not sinks'],
+)
